@@ -259,7 +259,7 @@ func scenarios(check string) []scenario {
 		l = append(l, scenario{Name: "cmp-refresh/n3/t1/dealer-from-start", Proto: "cmp-refresh", N: 3, T: 1, Cost: 2, StartOnly: true, Whole: true})
 		// the secret share a dealer hands out in the last message round of the CMP key generation, from a dealer that is
 		// NOT the last of the victim's peers (three parties; the full three-party catalogue is in the thorough tier)
-		l = append(l, scenario{Name: "cmp-keygen/n3/t1/share", Proto: "cmp-keygen", N: 3, T: 1, Cost: 2, OnlyPaths: []string{"/Share"}, OnlyOps: []string{"int-plus1", "sc-plus1", "bit-flip"}, Whole: true})
+		l = append(l, scenario{Name: "cmp-keygen/n3/t1/share", Proto: "cmp-keygen", N: 3, T: 1, Cost: 2, OnlyPaths: []string{"/Share"}, OnlyOps: []string{"int-plus1"}, Whole: true})
 	}
 	if check == "C03" || check == "C04" {
 		// the chain-key contribution a party reveals in round 3 of the CMP key generation (three parties: shown differently
